@@ -183,6 +183,18 @@ func (w *World) flowClauses(id string, opts *RunOpts, ex *Extra) {
 
 // fieldNameOf: the struct field a loaded value comes from ("" if it is not a field load).
 func fieldNameOf(v ssa.Value) string {
+	// a field value handed on as another interface type is still that field
+	for {
+		if ci, ok := v.(*ssa.ChangeInterface); ok {
+			v = ci.X
+			continue
+		}
+		if mi, ok := v.(*ssa.MakeInterface); ok {
+			v = mi.X
+			continue
+		}
+		break
+	}
 	switch x := v.(type) {
 	case *ssa.FieldAddr: // &x.F passed directly
 		if pt, ok := x.X.Type().Underlying().(*types.Pointer); ok {
